@@ -4,7 +4,7 @@ from dataclasses import dataclass, field
 
 from . import coders
 from .common import MAGIC, PID, PROP, crc32, dec_number, unpack_bits
-from .errors import FormatError, NeedPassword, Unsupported
+from .errors import FormatError, Unsupported
 
 _TIMES = {PID["CTime"]: "ctime", PID["ATime"]: "atime", PID["MTime"]: "mtime", PID["StartPos"]: "startpos"}
 S_IFMT, S_IFLNK, S_IFDIR = 0o170000, 0o120000, 0o040000
